@@ -1113,6 +1113,10 @@ pub const IMPORT_FORMS: &[&str] = &[
     // the file may use functions and modules the importer declared before the import
     "helper := (v: int) -> int { return v * 2 }; outer_x := helper(4); m := import \"p\"; m.y",
     "g := (outer_x: int) -> int { k := outer_x + 1; m := import \"p\"; return m.y + k }; (g(1), g(2))",
+    // a path literal that is not a valid string / an empty path / a path with a NUL escape
+    "import \"\\q\"",
+    "m := import \"\"; m",
+    "import \"a\\0b\"",
 ];
 /// forms up to this index import `p` (and possibly `q`) and use at most the members a / s / f
 const LAST_PLAIN_FORM: usize = 9;
